@@ -93,6 +93,7 @@ inductive Obs where
   | crash (msg : String)
   | tick
   | qtick                                        -- a tick that fired while no goroutine could run (time passing at rest)
+  | rest                                         -- the harness observed that no other goroutine can run at this moment
   | adapter (g a : Nat) (op : String) (arg : String) (res : List String)   -- one call of the recording adapter
   | recover                                      -- the process died; what follows is a fresh process on the same adapters
   | fadapter (a : Nat) (pending unacked acked : List String)
@@ -108,6 +109,7 @@ structure Params where
   gate : Bool := false
   expiry : Bool := false
   errs : Bool := false            -- a goroutine of the harness keeps reading Errs()
+  ackHold : Bool := false         -- the adapter's Acknowledge blocks until the harness opens it (a slow backend)
   noIdBatch : Bool := false       -- batch items k with k % 3 = 1 were submitted without an ID (named by the generator)
   ctx : Bool := false
   nqueues : Nat := 1
